@@ -8,12 +8,12 @@ import Rml.Lemmas.DesNext
 namespace Rml.Safe
 open Rml Rml.Bytes Rml.Chunk Rml.Amf0 Rml.Msgs Rml.Sess Rml.Emit
 
-theorem runAll_eq_runOps (ops : List C19.SerOp) : ∀ s, runAll s ops = C19.runOps s ops := by
+theorem runAll_eq_runOps (ops : List C19.SerOp) : ∀ s, SerHist.runAll s ops = C19.runOps s ops := by
   induction ops with
   | nil => intro s; rfl
   | cons op rest ih =>
     intro s
-    simp only [runAll, C19.runOps, SerHist.after]
+    simp only [SerHist.runAll, C19.runOps, SerHist.after]
     cases C19.applyOp s op with
     | ok r => exact ih _
     | err e => exact ih _
